@@ -449,6 +449,35 @@ func runTimeline(tl timeline, parent string) outcome {
 	// into an outage and a write call began after it and returned before the directory came back,
 	// that call made the attempt (and failed); no file is named for that second - the next attempt
 	// belongs to the next boundary
+	// the same with longer intervals, where a file is named for the second of its creation: once a
+	// call has made the (failing) attempt of an interval, no file is created later in that interval
+	for _, sp := range spans {
+		if iv == time.Second {
+			break
+		}
+		for b := sp.from.Truncate(iv); b.Before(sp.to); b = b.Add(iv) {
+			var first *rec // the first call that began in [b, b+iv) while the directory was away and returned well before it was back
+			for i := range all {
+				r := &all[i]
+				if r.start.After(b) && r.start.Before(b.Add(iv)) && r.start.After(sp.fromDone) && r.end.Before(sp.toBegin.Add(-200*time.Millisecond)) && (first == nil || r.start.Before(first.start)) {
+					first = r
+				}
+			}
+			if first == nil {
+				continue
+			}
+			for _, e := range ents {
+				m := nameRe.FindStringSubmatch(e.Name())
+				if m == nil {
+					continue
+				}
+				nt, _ := time.ParseInLocation("20060102150405", m[1], time.Local)
+				if nt.After(first.end) && nt.Before(b.Add(iv)) {
+					return outcome{err: fmt.Errorf("the file %s was created in the middle of the interval that began at %s: the call at %s had made that interval's attempt while the directory was away (%s .. %s) - creation is due again at the next boundary (%s), not before", e.Name(), b.Format("15:04:05"), first.start.Format("15:04:05.000"), sp.from.Format("15:04:05.000"), sp.to.Format("15:04:05.000"), b.Add(iv).Format("15:04:05"))}
+				}
+			}
+		}
+	}
 	for _, sp := range spans {
 		if iv != time.Second {
 			break // a file is named for the second of its creation: only with 1 s intervals is that the boundary
